@@ -41,7 +41,7 @@ fn replay(v: &Visit) -> serde_json::Value {
 }
 
 /// does the image equal the reference with one open-known-finding switch applied?
-fn quirk_of(t: &dyn Table, c: &Ctor, ops: &[Op], img: &[u8]) -> Option<&'static str> {
+pub fn quirk_of(t: &dyn Table, c: &Ctor, ops: &[Op], img: &[u8]) -> Option<&'static str> {
     for q in t.quirks() {
         if let Some(r) = t.reference_q(c, ops, q) {
             if r.image == img {
@@ -443,6 +443,7 @@ pub fn run(ctx: &'static Ctx, p: P) {
                     }
                 }
             }
+            progs.extend(value_programs(t, quick, false));
             sum_programs = progs.len() as u64;
             let j: u64 = progs
                 .par_iter()
@@ -453,10 +454,149 @@ pub fn run(ctx: &'static Ctx, p: P) {
                 .sum();
             lane_prefixes += j;
         }
-        per_table.push(json!({"table": t.name(), "byte_sum_programs": sum_programs, "sweep_programs": sweeps.len(), "sweep_prefixes_judged": sweep_prefixes, "dfs": info, "lanes": lanes.len(), "lane_len": n, "lane_prefixes_judged": lane_prefixes, "long_lanes": long_info}));
+        // the same value sweep for the constructor's own arguments, each followed by one operation of every kind
+        let mut ctor_programs = 0u64;
+        {
+            use rayon::prelude::*;
+            let cf = t.ctor_fields();
+            let dims: Vec<(usize, usize)> = cf
+                .iter()
+                .enumerate()
+                .filter_map(|(i, ft)| match ft {
+                    crate::tables::FT::E(n) => Some((i, *n)),
+                    crate::tables::FT::B => Some((i, 2)),
+                    _ => None,
+                })
+                .collect();
+            let combos = crate::util::enum_combos(&dims, 64);
+            let mut cprogs: Vec<(String, Ctor, Vec<Op>)> = vec![];
+            let tails: Vec<Vec<Op>> = {
+                let mut v = vec![vec![]];
+                for o in t.alphabet(&c0, &t.enable_all(), 0) {
+                    let mut ops = t.enable_all();
+                    ops.push(o);
+                    v.push(ops);
+                }
+                v
+            };
+            for (i, ft) in cf.iter().enumerate() {
+                let b = match ft {
+                    crate::tables::FT::U(b) => *b,
+                    crate::tables::FT::A(n) => (8 * *n as u32).min(64),
+                    _ => continue,
+                };
+                let ordinary = crate::fill::Fill::b(2).raw(i as u8, b);
+                for val in crate::util::value_set(b, ordinary, quick) {
+                    for combo in &combos {
+                        let mut c = c0;
+                        c.fill = c.fill.with(i as u8, val);
+                        for (ei, ev) in combo.iter().take(5) {
+                            c.fill = c.fill.with(*ei as u8, *ev);
+                        }
+                        for tail in &tails {
+                            cprogs.push((format!("new[arg {} = {:#x} enums {:?}]", i, val, combo), c, tail.clone()));
+                        }
+                    }
+                }
+            }
+            ctor_programs = cprogs.len() as u64;
+            let j: u64 = cprogs
+                .par_iter()
+                .map(|(name, c, ops)| {
+                    let l = seq::Lane { name: format!("ctor-values:{}", name), ops: ops.clone() };
+                    seq::run_lane(ctx, t, c, &l, &|_k| (true, false), &|v| judge(ctx, p, v))
+                })
+                .sum();
+            lane_prefixes += j;
+        }
+        per_table.push(json!({"table": t.name(), "ctor_value_programs": ctor_programs, "byte_sum_programs": sum_programs, "sweep_programs": sweeps.len(), "sweep_prefixes_judged": sweep_prefixes, "dfs": info, "lanes": lanes.len(), "lane_len": n, "lane_prefixes_judged": lane_prefixes, "long_lanes": long_info}));
     }
     ctx.engine("E2.sequences", json!({"level": level, "node_budget_per_table": budget, "tables": per_table}));
     ctx.set("bound", json!(format!("all operation sequences up to the per-table depth listed under engines (budget {} nodes), all lanes a^N and (ab)^(N/2)", budget)));
+}
+
+/// Value sweep (the value principle, DESIGN.md 8): every numeric or byte-array argument of every kind and shape through
+/// util::value_set, crossed with the enumerated / boolean arguments of the same entry; then pairs of arguments equal /
+/// adjacent / doubled, and an argument equal to the entry's own position. `options_only` keeps the kinds that have an
+/// enumerated or boolean argument or more than one shape (the option-bearing entries C11 is about).
+pub fn value_programs(t: &dyn Table, quick: bool, options_only: bool) -> Vec<(String, Vec<Op>)> {
+    let mut progs: Vec<(String, Vec<Op>)> = vec![];
+    // value sweep (the value principle, DESIGN.md 8): every numeric or byte-array argument of every kind and shape
+    // through util::value_set, crossed with the enumerated / boolean arguments of the same entry; then pairs of
+    // arguments equal / adjacent / doubled, and an argument equal to the entry's own position
+    let shape_cap = if t.name() == "fadt" { usize::MAX } else if quick { 4 } else { 16 };
+    for k in 0..t.kinds().len() as u8 {
+        if options_only && t.shapes(k).len() < 2 && !t.shapes(k).iter().any(|s| t.fields(k, *s).iter().any(|ft| matches!(ft, crate::tables::FT::E(_) | crate::tables::FT::B))) {
+            continue;
+        }
+        let mut seen_sigs: Vec<Vec<crate::tables::FT>> = vec![];
+        for shape in t.shapes(k).into_iter().take(shape_cap) {
+            let fields = t.fields(k, shape);
+            if quick && seen_sigs.contains(&fields) && t.name() != "fadt" && seen_sigs.len() >= 2 {
+                continue;
+            }
+            seen_sigs.push(fields.clone());
+            let pre = t.prelude(k, shape);
+            let dims: Vec<(usize, usize)> = fields
+                .iter()
+                .enumerate()
+                .filter_map(|(i, ft)| match ft {
+                    crate::tables::FT::E(n) => Some((i, *n)),
+                    crate::tables::FT::B => Some((i, 2)),
+                    _ => None,
+                })
+                .collect();
+            let combos = crate::util::enum_combos(&dims, if quick { 8 } else { 32 });
+            let wide: Vec<(usize, u32)> = fields
+                .iter()
+                .enumerate()
+                .filter_map(|(i, ft)| match ft {
+                    crate::tables::FT::U(b) => Some((i, *b)),
+                    crate::tables::FT::A(n) => Some((i, (8 * *n as u32).min(64))),
+                    _ => None,
+                })
+                .collect();
+            let kname = t.kinds()[k as usize];
+            for (i, b) in wide.iter().copied() {
+                let ordinary = crate::fill::Fill::b(2).raw(i as u8, b);
+                for val in crate::util::value_set(b, ordinary, quick) {
+                    for combo in &combos {
+                        let mut f = crate::fill::Fill::b(2).with(i as u8, val);
+                        // at most 5 further overrides fit; longer combinations keep their first ones
+                        for (ei, ev) in combo.iter().take(5) {
+                            f = f.with(*ei as u8, *ev);
+                        }
+                        let mut ops = pre.clone();
+                        ops.push(Op { k, shape, fill: f });
+                        progs.push((format!("{}[shape {} arg {} = {:#x} enums {:?}]", kname, shape, i, val, combo), ops));
+                    }
+                }
+            }
+            for (ai, (i, bi)) in wide.iter().copied().enumerate() {
+                for (j, bj) in wide.iter().copied().skip(ai + 1) {
+                    let w = bi.min(bj).min(63);
+                    let m = (1u64 << w) - 1;
+                    let x = (crate::fill::Fill::b(2).raw(i as u8, 64) & m) >> 1;
+                    for (name, a, c) in [("equal", x, x), ("next", x, x + 1), ("previous", x + 1, x), ("double", x >> 1, (x >> 1) * 2), ("both zero", 0, 0), ("both one", 1, 1), ("both ones", m, m)] {
+                        let mut ops = pre.clone();
+                        ops.push(Op { k, shape, fill: crate::fill::Fill::b(3).with(i as u8, a).with(j as u8, c) });
+                        progs.push((format!("{}[shape {} args {} and {} {}]", kname, shape, i, j, name), ops));
+                    }
+                }
+            }
+            for (i, _b) in wide.iter().copied() {
+                for from in [0u64, 1] {
+                    let mut ops = pre.clone();
+                    let at = if from == 0 { 0 } else { ops.len() as u64 + 1 };
+                    for n in 0..4u64 {
+                        ops.push(Op { k, shape, fill: crate::fill::Fill::b(2).with(i as u8, at + n) });
+                    }
+                    progs.push((format!("{}[shape {} arg {} = position of the entry, from {}]", kname, shape, i, from), ops));
+                }
+            }
+        }
+    }
+    progs
 }
 
 pub fn rule(p: P) -> &'static str {
@@ -469,7 +609,7 @@ pub fn rule(p: P) -> &'static str {
     }
 }
 pub const ASSUME: &[&str] = &[
-    "argument values range over the fill patterns (zero, all-ones, two distinct-byte patterns), not over all 2^64 values per field",
+    "argument values range over the fill patterns and, one argument at a time, over util::value_set (whole domain up to 8 bits, thorough 16; beyond: 0..=300 (4096), top of range, powers of two +-1, every byte lane x 6 (256) values x 3 backgrounds, common alignments) crossed with the enumerated arguments - not over all 2^32 / 2^64 values per field",
     "specification facts are those recorded in DESIGN.md 9.1 (table revision bytes pinned to the baseline)",
     "64-bit little-endian host",
 ];
